@@ -8,9 +8,10 @@ Open Scope nat_scope.
 
 Record Ops (T : Type) := mkOps {
   o0 : T; o1 : T; oadd : T -> T -> T; omul : T -> T -> T; odiv : T -> T -> T;
-  oofnat : nat -> T }.
+  oofnat : nat -> T;
+  onegb : T -> bool          (* x < 0, used by _validate_metric only *) }.
 Arguments o0 {T}. Arguments o1 {T}. Arguments oadd {T}. Arguments omul {T}.
-Arguments odiv {T}. Arguments oofnat {T}.
+Arguments odiv {T}. Arguments oofnat {T}. Arguments onegb {T}.
 
 Section Conv.
 Context {T : Type} (O : Ops T).
@@ -128,25 +129,52 @@ Inductive wmode :=
 | WExplicit (wt : list T)              (* weight=array, one per position of elements.ids *)
 | WImplicit (by_id : bool) (mu : Z -> option T).   (* weight=None: calculate_element_metrics *)
 
-Definition e2n (m : mesh) (effective_mode : bool) (order1_only : bool) (wm : wmode)
-           (v : field) (w : nat) : option field :=
+(* _validate_metric(metrics, raise_negative_metric=raise_negative_volume,
+   return_abs_metric=False): ValueError when a metric is negative and the
+   flag is set; otherwise the signed metrics are used as they are *)
+Definition validate_metric (raise_neg : bool) (wt : list T) : option (list T) :=
+  if raise_neg && existsb (onegb O) wt then None else Some wt.
+
+(* the incidence matrix the call works with: the `incidence=` argument when
+   given (then order1_only is ignored), else calculate_incidence_matrix *)
+Definition incidence_in_use (m : mesh) (order1_only : bool) (inc : option bmat) : option bmat :=
+  match inc with Some Ig => Some Ig | None => incidence m order1_only end.
+
+(* the whole call convert_elemental2nodal(v, mode, order1_only,
+   raise_negative_volume, weight, incidence); None = an exception *)
+Definition e2n_call (m : mesh) (mode : string) (order1_only raise_neg : bool) (wm : wmode)
+           (inc : option bmat) (v : field) (w : nat) : option field :=
   if negb (length v =? length (elems_of (m_blocks m))) then None      (* ValueError *)
   else
-    match incidence m order1_only with
+    match incidence_in_use m order1_only inc with
     | None => None
     | Some Im =>
-        if effective_mode then Some (e2n_effective_of Im v w)
-        else
+        if String.eqb mode "effective"%string then
+          if bnc Im =? length v then Some (e2n_effective_of Im v w) else None  (* dot: shapes *)
+        else if String.eqb mode "mean"%string then
           match wm with
-          | WFalse => Some (e2n_mean_of Im (repeat (o1 O) (bnc Im)) v w)
-          | WExplicit wt => if length wt =? bnc Im then Some (e2n_mean_of Im wt v w) else None
+          | WFalse => if bnc Im =? length v then Some (e2n_mean_of Im (repeat (o1 O) (bnc Im)) v w)
+                      else None
+          | WExplicit wt => if (length wt =? bnc Im) && (bnc Im =? length v)
+                            then Some (e2n_mean_of Im wt v w) else None
           | WImplicit by_id mu =>
               match implicit_weights by_id mu (m_blocks m) with
               | None => None
-              | Some wt => Some (e2n_mean_of Im wt v w)
+              | Some wt0 =>
+                  match validate_metric raise_neg wt0 with
+                  | None => None                                      (* ValueError *)
+                  | Some wt => if (length wt =? bnc Im) && (bnc Im =? length v)
+                               then Some (e2n_mean_of Im wt v w) else None
+                  end
               end
           end
+        else None                                                     (* ValueError: Invalid mode *)
     end.
+
+(* the call with the defaults raise_negative_volume=True, incidence=None *)
+Definition e2n (m : mesh) (effective_mode : bool) (order1_only : bool) (wm : wmode)
+           (v : field) (w : nat) : option field :=
+  e2n_call m (if effective_mode then "effective" else "mean")%string order1_only true wm None v w.
 End Conv.
 
 (* ------------------------------------------------------------ execution *)
@@ -154,7 +182,8 @@ From Coq Require Import QArith Qabs.
 
 Definition QOps : Ops Q :=
   mkOps Q 0%Q 1%Q (fun a b => Qred (a + b)) (fun a b => Qred (a * b))
-        (fun a b => Qred (a / b)) (fun n => inject_Z (Z.of_nat n)).
+        (fun a b => Qred (a / b)) (fun n => inject_Z (Z.of_nat n))
+        (fun a => negb (Qle_bool 0 a)).
 
 Definition close (tol a b : Q) : bool := Qle_bool (Qabs (a - b)) tol.
 
